@@ -127,7 +127,6 @@ pub fn generate(prop: &PropDef, tier: &str, seed: u64, index: u64) -> RunSpec {
         let mut p = (prop.profile)();
         p.min_ops = 4;
         p.max_ops = 20;
-        p.blob_ingest = false;
         let mut s = crate::gen::gen_run(prop.id, seed, &p);
         s.ops.retain(|o| !matches!(o, Op::Scan { .. } | Op::Prefix { .. }));
         let mut plan = crate::fault::default_plan("quick");
@@ -141,7 +140,6 @@ pub fn generate(prop: &PropDef, tier: &str, seed: u64, index: u64) -> RunSpec {
         let mut p = (prop.profile)();
         p.min_ops = 4;
         p.max_ops = 22;
-        p.blob_ingest = false;
         let mut s = crate::gen::gen_run(prop.id, seed, &p);
         s.ops.retain(|o| !matches!(o, Op::SnapOpen | Op::SnapClose { .. } | Op::Scan { .. } | Op::Prefix { .. }));
         let mut plan = crate::crash::default_plan("quick");
